@@ -448,7 +448,7 @@ def fingerprint(trace, rej):
     return "/".join(parts)
 
 
-def shrink(ctx, hist, fp, rounds=25):
+def shrink(ctx, hist, fp, rounds=12):
     """Delta-debug a rejected history (top-level operations and script entries) keeping the fingerprint."""
     import copy
 
@@ -495,7 +495,7 @@ def report(ctx, traces, rej, what):
         t = traces[x.idx]
         fp = fingerprint(t, x)
         known = any(k["fingerprint"] == fp for k in ctx.known)
-        if fp not in shrunk and len(shrunk) < 4 and not known:
+        if fp not in shrunk and len(shrunk) < 2 and not known:
             shrunk.add(fp)
             try:
                 hist = shrink(ctx, t["hist"], fp)
